@@ -20,6 +20,8 @@ oracle: context data deep-equals its snapshot after every render (methods along 
 """
 import collections
 import collections.abc
+
+from markupsafe import Markup
 import types
 import copy
 import inspect
@@ -241,6 +243,7 @@ PATHS = {
     "loop-var": "{%% for f in [c.%(m)s] %%}{{ f(%(a)s) }}{%% endfor %%}",
     "dict-value": "{%% set d = {'f': c.%(m)s} %%}{{ d.f(%(a)s) }}",
     "call-block": "{%% macro w() %%}{{ caller() }}{%% endmacro %%}{%% call w() %%}{{ c.%(m)s(%(a)s) }}{%% endcall %%}",
+    "do-statement": "{%% do c.%(m)s(%(a)s) %%}",
     # the container sits three levels down: object -> dict -> object -> container (and list -> dict -> container)
     "deep-dot": "{{ deep.data.inner.c.%(m)s(%(a)s) }}",
     "deep-subscript": "{{ deep['data']['inner']['c']['%(m)s'](%(a)s) }}",
@@ -269,16 +272,52 @@ FORMAT_PATHS = {
 }
 
 
-def render_case(envs, mode, src, data):
-    """returns (outcome, data) with outcome in ok / SecurityError / other exception class name"""
+ENTRIES = ("render", "generate", "stream", "render_async", "make_module")
+PLACES = ("context", "env-globals", "template-globals")
+
+
+def render_case(envs, mode, src, data, entry="render", place="context"):
+    """outcome in ok / SecurityError / other exception class name.
+    entry: which public entry point evaluates the template (render, generate, stream, render_async driven by
+    asyncio.run, make_module); place: how the data reaches the template (render arguments, environment.globals,
+    the globals of from_string)"""
+    import asyncio
     from jinja2.exceptions import SecurityError
     env = envs[mode]
+    is_async = bool(getattr(env, "is_async", False))
     try:
-        t = envs["cache"][mode].get(src)
-        if t is None:
-            t = env.from_string(src)
-            envs["cache"][mode][src] = t
-        t.render(**data)
+        if place == "template-globals":
+            t = env.from_string(src, globals=data)
+            args = {}
+        else:
+            t = envs["cache"][mode].get(src)
+            if t is None:
+                t = env.from_string(src)
+                envs["cache"][mode][src] = t
+            args = data
+            if place == "env-globals":
+                env.globals.update(data)
+                args = {}
+        try:
+            if entry == "generate" and not is_async:
+                "".join(t.generate(**args))
+            elif entry == "stream" and not is_async:
+                st = t.stream(**args)
+                st.enable_buffering(3)
+                "".join(st)
+            elif entry == "render_async" and is_async:
+                asyncio.run(t.render_async(**args))
+            elif entry == "make_module":
+                if is_async:
+                    asyncio.run(t.make_module_async(args))
+                else:
+                    str(t.make_module(args))
+            else:
+                t.render(**args)
+        finally:
+            if place == "env-globals":
+                for k in data:
+                    env.globals.pop(k, None)
         return "ok"
     except SecurityError:
         return "SecurityError"
@@ -308,10 +347,19 @@ def make_envs():
     are used in between: what the immutable sandbox decides must not depend on what another environment looked
     up before (no verdict shared across environment classes)"""
     from jinja2.sandbox import ImmutableSandboxedEnvironment, SandboxedEnvironment
-    envs = {"sync": ImmutableSandboxedEnvironment(), "async": ImmutableSandboxedEnvironment(enable_async=True),
-            "sync-ae": ImmutableSandboxedEnvironment(autoescape=True),
-            "async-ae": ImmutableSandboxedEnvironment(autoescape=True, enable_async=True),
-            "plain-sync": SandboxedEnvironment(), "plain-async": SandboxedEnvironment(enable_async=True)}
+    ext = ["jinja2.ext.do", "jinja2.ext.loopcontrols"]
+    envs = {"sync": ImmutableSandboxedEnvironment(extensions=ext), "async": ImmutableSandboxedEnvironment(enable_async=True, extensions=ext),
+            "sync-ae": ImmutableSandboxedEnvironment(autoescape=True, extensions=ext),
+            "async-ae": ImmutableSandboxedEnvironment(autoescape=True, enable_async=True, extensions=ext),
+            "plain-sync": SandboxedEnvironment(extensions=ext), "plain-async": SandboxedEnvironment(enable_async=True, extensions=ext)}
+    # configuration axes (sampled): an overlay of the immutable environment, the unoptimized compile, other delimiters
+    envs["sync-overlay"] = envs["sync"].overlay(trim_blocks=True, lstrip_blocks=True)
+    envs["async-overlay"] = envs["async"].overlay(trim_blocks=True)
+    envs["sync-noopt"] = ImmutableSandboxedEnvironment(optimized=False, extensions=ext, line_statement_prefix="%%")
+    envs["async-noopt"] = ImmutableSandboxedEnvironment(optimized=False, enable_async=True, extensions=ext)
+    for k in ("overlay", "noopt"):
+        envs["plain-sync-" + k] = envs["plain-sync"]
+        envs["plain-async-" + k] = envs["plain-async"]
     envs["cache"] = {k: {} for k in envs}
     return envs
 
@@ -329,11 +377,12 @@ def judge_method_case(ctx, envs, case, model_safe, exists=True):
     outcome = None
     for stepno, step in enumerate(steps):
         data = method_data(T, variant, args, m)
+        cfg = mode + case.get("config", "")
         if step == "plain":
-            render_case(envs, "plain-" + mode, src, data)       # mutation is allowed here
+            render_case(envs, "plain-" + cfg, src, data)       # mutation is allowed here
             continue
         before = canon(data)
-        outcome = render_case(envs, mode, src, data)
+        outcome = render_case(envs, cfg, src, data, case.get("entry", "render"), case.get("place", "context"))
         case["outcome"] = outcome
         if canon(data) != before:
             case["step"] = stepno
@@ -354,6 +403,7 @@ def filter_values():
         "d": {"a": 1, "b": [2]}, "s": {1, 2, 3}, "q": collections.deque([3, 1, 2]), "ql": collections.deque([[1], [2]]),
         "lb": [Box(k=[1], n=2), Box(k=[4], n=1)], "ls": ["b", "a"], "st": "ab cd", "n": 2,
         "nest": Box(data={"rows": [[3, 1], [2]], "by": {"k": [5, 4]}}),
+        "lm": [Markup("<b>"), "x", 1, 1.0, True, None], "lt": [(2, [9]), (1, [8])], "dm": {Markup("k"): [1], 1: [2], True: [3]},
     }
 
 
@@ -365,12 +415,34 @@ def with_generators(data):
     data["gq"] = iter(data["ql"])
     data["gn"] = (x for x in data["nest"].data["rows"])
     data["gv"] = iter(data["d"].values())
+    data["io"] = IterOnly(data["ll"])
+    data["go"] = GetItemOnly(data["ll"])
+    data["cm"] = collections.ChainMap(data["d"])          # a MutableMapping view whose first map IS the context dict
     return data
+
+
+class IterOnly:
+    """iterable only through __iter__; its items are containers of the context"""
+    def __init__(self, items):
+        self._items = items
+
+    def __iter__(self):
+        return iter(self._items)
+
+
+class GetItemOnly:
+    """iterable only through the old __getitem__ protocol"""
+    def __init__(self, items):
+        self._items = items
+
+    def __getitem__(self, i):
+        return self._items[i]
 
 
 def filter_templates(ctx, filters):
     """yield (filter name, expression) pairs"""
-    vals = ["l", "ll", "ld", "d", "s", "q", "ql", "lb", "ls", "gl", "gd", "gq", "gn", "nest.data.rows", "nest.data.by.k"]
+    vals = ["l", "ll", "ld", "d", "s", "q", "ql", "lb", "ls", "gl", "gd", "gq", "gn", "nest.data.rows", "nest.data.by.k",
+            "io", "go", "lm", "lt", "dm", "cm"]
     conts = ["l", "d", "s", "q", "ll"]
     subj = ctx.size(["ll", "ld", "st", "q", "gl", "nest.data.rows"],
                     ["l", "ll", "ld", "lb", "d", "s", "q", "st", "n", "gl", "gd", "gq", "gn", "nest.data.rows"])
@@ -397,7 +469,21 @@ def filter_templates(ctx, filters):
                         yield name, f"{v}|{name}(1, {c})"
             pos += 1
     # attribute-taking and variadic filters
+    # every built-in test with container subjects and container arguments
+    from jinja2.tests import TESTS
+    for tname in sorted(TESTS):
+        for v in ("l", "d", "s", "q", "ll", "gl"):
+            yield "test:" + tname, f"{v} is {tname}"
+            for c in ("l", "d", "ll"):
+                yield "test:" + tname, f"{v} is {tname}({c})"
     extra = [
+        # global functions with container arguments, the ChainMap alias of the context dict, odd item kinds
+        "dict(d)|length", "dict(d, z=l)|length", "namespace(v=l, w=d).v|length", "cycler(*ll).next()", "joiner(l)()", "range(n)|list",
+        "cm.pop('a')", "cm.popitem()", "cm.clear()", "cm.setdefault('z', l)", "cm.update(d)", "cm.maps[0].clear()", "cm.maps[0].pop('a')",
+        "cm.new_child().update(d)", "cm.parents.maps|length", "cm|dictsort", "cm|items|list", "cm|length",
+        "io|map('sort')|list", "io|sum(start=l)", "go|map('reverse')|list", "go|list", "io|first", "lm|join(',')", "lm|join", "lm|sort",
+        "lm|unique|list", "lm|map('string')|list", "lt|sort|list", "lt|map('last')|map('sort')|list", "dm|dictsort", "dm|items|list",
+        "lt|dictsort" , "lm|max", "lm|reject('none')|list", "lt|batch(1)|list",
         "gl|map('sort')|list", "gl|map('reverse')|list", "gl|sum(start=l)", "gn|sum(start=l)", "gl|map('join')|list", "gl|first",
         "gl|map('first')|list", "gd|map(attribute='k')|map('sort')|list", "gd|sum(attribute='k', start=l)", "gd|sort(attribute='n')",
         "gd|groupby('n')|list", "gq|map('list')|list", "gq|sum(start=l)", "gv|list", "gl|batch(1)|list", "gl|slice(2)|list",
@@ -509,7 +595,10 @@ def run(ctx):
             bits = model.get((T, m))
             for idx, ((ai, variant), path, mode) in enumerate(itertools.product(trials, list(PATHS) + list(FORMAT_PATHS), ("sync", "async"))):
                 case = {"kind": "method", "T": T, "m": m, "args": ai, "variant": variant, "path": path, "mode": mode,
-                        "order": "plain-first" if idx % 2 == 0 else "immutable-first"}
+                        "order": "plain-first" if idx % 2 == 0 else "immutable-first",
+                        # sampled axes: entry point, where the data lives, environment configuration
+                        "entry": ENTRIES[(idx // 2) % len(ENTRIES)], "place": PLACES[(idx // 3) % len(PLACES)],
+                        "config": ("", "", "", "-overlay", "-noopt")[(idx // 5) % 5]}
                 nontriv = bool(bits and bits["spec"]) or (T, m) in observed and observed[(T, m)][0]
                 if ctx.tier != "thorough" and mode == "async" and path not in ASYNC_QUICK_PATHS:
                     continue
@@ -524,6 +613,9 @@ def run(ctx):
                          key=("m", T, m, ai, variant, path, mode) if nontriv else None)
                 ctx.count("render_" + ("format" if path in FORMAT_PATHS else "call") + "_" + mode)
                 ctx.count("history_" + case["order"])
+                ctx.count("entry_" + case["entry"])
+                ctx.count("place_" + case["place"])
+                ctx.count("config" + (case["config"] or "-default"))
                 if ok:
                     ctx.validated()
 
